@@ -60,6 +60,60 @@ def run(ctx):
     r02a(ctx)
     r02b(ctx)
     r02c(ctx)
+    r02d(ctx)
+
+
+def r02d(ctx):
+    """the inverse lookup of a stack secret (find_position, find) is what glue, the import check and
+    the verifiers index with: it must be a function of the current `stack` alone.  If it reads any
+    other member (a cached table), every member function that can change `stack` -- assignment,
+    push, clear, import, and the non-const operator[] that hands out a mutable reference -- must
+    write that member too, otherwise the lookup answers for an earlier permutation"""
+    prog = ctx.prog
+
+    def members(body, writes_only=False):
+        out = set()
+        for e in walk(body):
+            if e.get('k') == 'mem' and isinstance(e.get('o'), dict) and e['o'].get('k') == 'this':
+                out.add(e['n'])
+        return out
+    n = 0
+    classes = sorted(set(q.rsplit('::', 1)[0] for q in prog.by_q if q.startswith('TMCG_StackSecret<') and q.endswith('::find_position')))
+    for cls in classes:
+        methods = [f for q, fl in prog.by_q.items() if q.rsplit('::', 1)[0] == cls for f in fl if f.get('body')]
+        for lk in ('find_position', 'find'):
+            for f in prog.by_q.get('%s::%s' % (cls, lk), []):
+                if not f.get('body'):
+                    continue
+                n += 1
+                key = 'R02d:%s::%s' % (cls, lk)
+                extra = members(f['body']) - {'stack'}
+                # members reached through other member functions called on this object
+                for e in walk(f['body']):
+                    if e.get('k') == 'mcall' and isinstance(e.get('o'), dict) and e['o'].get('k') == 'this':
+                        for g in prog.by_q.get(e['f'], []):
+                            if g.get('body'):
+                                extra |= members(g['body']) - {'stack'}
+                if not extra:
+                    ctx.ok('R02d', key, 'the lookup reads the member stack only', f)
+                    continue
+                stale = []
+                for g in methods:
+                    short = g['q'].split('::')[-1]
+                    if short in (lk, 'find_position', 'find') or short == cls.split('<')[0]:
+                        continue
+                    const = (g.get('key', '') or '').rstrip().endswith('const')
+                    if const or 'stack' not in members(g['body']):
+                        continue
+                    if short == 'operator[]':
+                        stale.append('the non-const operator[] hands out a mutable reference into stack')
+                    elif not (extra <= members(g['body'])):
+                        stale.append('%s changes stack without touching %s' % (short, ', '.join(sorted(extra - members(g['body'])))))
+                if stale:
+                    ctx.bad('R02d', key, 'the lookup answers from the cached member %s, which can be out of date: %s' % (', '.join(sorted(extra)), '; '.join(sorted(set(stale)))), f)
+                else:
+                    ctx.ok('R02d', key, 'cached member %s is rewritten by every member function that changes stack' % ', '.join(sorted(extra)), f)
+    ctx.floor('R02d', n, 2)
 
 
 def r02a(ctx):
